@@ -434,6 +434,20 @@ def h_m_call(w, st, rec):
             spec = {"type": "nd", "mean": enc(d.mean), "cov": enc(d.covariance)}
             register_model(w, st, rec["as_model"], "nd", d, spec)
             st.results[rec["keep"]]["is_model"] = rec["as_model"]
+    if rec.get("burst") and rec.get("arm") is None:
+        # a long session in one step: the same call many times in a row on the same model
+        first = outcome_digest(*out)
+        cmp_ = comparable(rec)
+        for b in range(int(rec["burst"]) - 1):
+            fnb, argsb = call_method(w, st, obj, mtype, method, a, G.seed_object(w, rec.get("seed")))
+            ob = w.call(fnb)
+            m["ncalls"] += 1
+            if cmp_ and outcome_digest(*ob) != first and not equalish(plain(out[1]), plain(ob[1])):
+                w.violate("result_depends_on_history", site,
+                          {"how": "repetition %d of a burst of %d identical calls" % (b + 2, rec["burst"]),
+                           "first": first, "later": outcome_digest(*ob)})
+                break
+        w.probes["burst.calls_on_one_model"] += 1
     failed = out[0] == "exc"
     # systematic single-fault sweep: the same call once per seam call it makes, the k-th failing
     if rec.get("sweep") and rec.get("arm") is None:
@@ -948,7 +962,7 @@ def gen_config(g):
             "nmax": 15 if g.random() < 0.93 else g.choice([120, 1100]),
             "faults": faults, "weights": weights, "max_models": g.randint(2, 5),
             "seeds": G.seed_alphabet(g),
-            "sweep_rate": g.choice([0, 0, 0.1, 0.4]), "twin_rate": g.choice([0.1, 0.3, 0.6]),
+            "sweep_rate": g.choice([0, 0, 0.1, 0.4]), "bursts": g.random() < 0.06, "twin_rate": g.choice([0.1, 0.3, 0.6]),
             "fault_rate": g.choice([0.05, 0.1, 0.2]), "types": g.choice([["lganm", "nd", "anm"], ["lganm"], ["nd"], ["anm"],
                                                                         ["lganm", "nd"], ["lganm", "anm"]])}
 
@@ -1278,6 +1292,9 @@ def generate(run_seed, deep=False):
             mid = sc.choice(sorted(gs.models))
             rec = gen_m_call(g, gs, cfg, mid)
             rec["c"] = c
+            if cfg.get("bursts") and g.random() < 0.2 and cfg["pmax"] <= 12 and cfg["nmax"] <= 15 \
+                    and not rec.get("sweep") and not rec.get("arm"):
+                rec["burst"] = g.choice([12, 130, 260, 1030])
             keepable = rec["method"] not in ("str", "equal", "mse")
             if keepable and g.random() < 0.6:
                 gs.nres += 1
@@ -1529,7 +1546,8 @@ REQUIRED_PROBES = ["iv.do.non_source", "iv.shift.non_source", "iv.noise.non_sour
                    "history.aged_vs_twin", "sweep.fault_positions", "sweep.utils", "obs_law.checked", "obs_law.checked:anm", "obs_law.checked:nd", "buf.view", "gc.model_dropped",
                    "gc.model_id_reused", "two_models_from_one_caller_array", "model_from_generator_output", "buf.lower_rank",
                    "buf.readonly_view", "buf.column_vector", "call.by_keyword", "scribble.in:bound_method_owner", "scribble.in:model_object_held_by_a_callable",
-                   "scribble.in:partial_bound_array", "buf.pandas",
+                   "scribble.in:partial_bound_array", "buf.pandas", "burst.calls_on_one_model",
+                   "call.same_object_for_two_parameters",
                    "utils.unseeded_call",
                    "nd.check_valid"]
 
@@ -1545,3 +1563,5 @@ def simplify(op):
         for flag in ("twin", "sweep", "keep"):
             if flag in op:
                 yield {k: v for k, v in op.items() if k != flag}
+        if op.get("burst", 0) > 3:
+            yield dict(op, burst=max(3, op["burst"] // 4))
